@@ -8,7 +8,7 @@
    from the headers.  `hall s` = all items stored in all generations; `spec_step` = the abstract finite map. *)
 From Coq Require Import ZArith List Permutation.
 From C01 Require Import HashModel HashSpec HashProofs HashInst HashInstProofs BucketFind.
-From C01 Require IterMachine KindFacts Gen_UnlimP Gen_LimP1.
+From C01 Require IterMachine KindFacts Gen_UnlimP Gen_LimP1 Gen_LimP1t Gen_LimP1f Gen_Lim4 Gen_LimP Open8Match.
 From C01 Require Gen_LimP4 Gen_Open2N2 Gen_Open2N2w Gen_OpenN1.
 Import ListNotations.
 Local Open Scope Z_scope.
@@ -317,3 +317,63 @@ Theorem C01_limp1_state_decoders :
     (Gen_LimP1.IsFull maxCount (idx * 16 + count) = true <-> count = maxCount).
 Proof. exact KindFacts.limp1_state_decoders. Qed.
 Print Assumptions C01_limp1_state_decoders.
+
+(* ---------- round 5 ---------- *)
+(* BucketOpen8::Find, SSE2 variant: with mask = movemask(cmpeq(set1(shortHash), the 7 slot bytes)) the loop
+   `for (; mask; mask &= mask - 1) itemPred(items[ctz(mask)])` calls itemPred exactly on the slots whose byte equals the short
+   hash, in increasing slot order -- i.e. it is the scalar short-hash filter loop (C01_openn1_find_complete applies to it). *)
+Theorem C01_open8_match_visits :
+  forall (bytes : list Z) (sh : Z), length bytes = 7%nat ->
+    Open8Match.visit 8 (Open8Match.movemask bytes sh) = Open8Match.positions bytes sh.
+Proof. exact Open8Match.open8_match_visits. Qed.
+Print Assumptions C01_open8_match_visits.
+
+Theorem C01_open8_positions_spec :
+  forall eqs i x, In x (Open8Match.pos_b eqs i) <-> exists j, nth_error eqs j = Some true /\ x = i + Z.of_nat j.
+Proof. exact Open8Match.pos_b_spec. Qed.
+Print Assumptions C01_open8_positions_spec.
+
+(* per-kind WasFull rules against the regenerated leaves (both pvGetMemPoolIndex overloads; asserts dropped with -DNDEBUG):
+   WasFull() = (stored pool index == index(maxCount)), and index(c) = index(maxCount) exactly from the threshold that
+   prop.py params() uses: LimP1 -- c = maxCount, or c = 1 when the first pool is skipped and maxCount = 2;  Lim4 -- c = maxCount,
+   null state not-was-full / null-was-full state was-full, the state word packs an ABSTRACT pointer and the pool index is read
+   back;  LimP (pointer state, odd pools skipped, maxCount 8) -- already from c = 7. *)
+Theorem C01_limp1_wasfull_rule :
+  forall maxCount idx count, 0 <= idx < 16 -> 0 <= count < 16 ->
+    Gen_LimP1t.WasFull maxCount (idx * 16 + count) = (idx =? Gen_LimP1t.pvGetMemPoolIndexOf maxCount).
+Proof. exact KindFacts.limp1t_wasfull. Qed.
+Print Assumptions C01_limp1_wasfull_rule.
+
+Theorem C01_limp1_index_rule_skipfirst :
+  forall maxCount c, 1 <= c <= maxCount ->
+    (Gen_LimP1t.pvGetMemPoolIndexOf c = Gen_LimP1t.pvGetMemPoolIndexOf maxCount <-> (c = maxCount \/ (maxCount = 2 /\ c = 1))).
+Proof. exact KindFacts.limp1t_index_rule. Qed.
+Print Assumptions C01_limp1_index_rule_skipfirst.
+
+Theorem C01_limp1_index_rule_noskip :
+  forall maxCount c, 1 <= c <= maxCount ->
+    (Gen_LimP1f.pvGetMemPoolIndexOf c = Gen_LimP1f.pvGetMemPoolIndexOf maxCount <-> c = maxCount).
+Proof. exact KindFacts.limp1f_index_rule. Qed.
+Print Assumptions C01_limp1_index_rule_noskip.
+
+Theorem C01_lim4_wasfull_rule :
+  Gen_Lim4.maxCount = 4 /\
+  Gen_Lim4.WasFull Gen_Lim4.stateNull = false /\ Gen_Lim4.WasFull Gen_Lim4.stateNullWasFull = true /\
+  (forall c, Gen_Lim4.pvGetMemPoolIndexOf c = c) /\
+  (forall st, Gen_Lim4.pvIsEmpty st = false ->
+     Gen_Lim4.WasFull st = (Gen_Lim4.pvGetMemPoolIndex st =? Gen_Lim4.pvGetMemPoolIndexOf Gen_Lim4.maxCount)).
+Proof. exact KindFacts.lim4_wasfull_rule. Qed.
+Print Assumptions C01_lim4_wasfull_rule.
+
+Theorem C01_lim4_pack_index :
+  forall st ptr idx count, 1 <= idx <= 4 -> 1 <= count <= idx -> 0 <= ptr -> ptr * idx + count - 1 < 2 ^ 30 ->
+    Gen_Lim4.pvGetMemPoolIndex (Gen_Lim4.pvSet st ptr idx count) = idx.
+Proof. exact KindFacts.lim4_pack_index. Qed.
+Print Assumptions C01_lim4_pack_index.
+
+Theorem C01_limp_wasfull_rule :
+  Gen_LimP.maxCount = 8 /\ Gen_LimP.skipOddMemPools = true /\
+  Gen_LimP.WasFull Gen_LimP.stateNull = false /\ Gen_LimP.WasFull Gen_LimP.stateNullWasFull = true /\
+  (forall c, 1 <= c <= 8 -> (Gen_LimP.pvGetMemPoolIndexOf c = Gen_LimP.pvGetMemPoolIndexOf Gen_LimP.maxCount <-> 7 <= c)).
+Proof. exact KindFacts.limp_wasfull_rule. Qed.
+Print Assumptions C01_limp_wasfull_rule.
